@@ -34,7 +34,7 @@ func TestMain(m *testing.M) {
 
 // Op is one step of a sequential script.
 type Op struct {
-	Kind   string `json:"kind"`   // get | set | setbad | settyped | update | updatebad | subscribe | rawget
+	Kind   string `json:"kind"`   // get | set | setbad | settyped | update | updatebad | subscribe | rawget | set2 | update2 | subscribe2 (the twin object)
 	Client int    `json:"client"` // which client session
 	Value  int32  `json:"value"`
 	ByID   bool   `json:"by_id,omitempty"`   // settyped: address the property by id instead of name
@@ -76,9 +76,9 @@ func genCase(t *rapid.T) Case {
 	n := rapid.IntRange(3, 25).Draw(t, "n")
 	for i := 0; i < n; i++ {
 		op := Op{Client: rapid.IntRange(0, c.Clients-1).Draw(t, "client")}
-		op.Kind = rapid.SampledFrom([]string{"get", "get", "set", "set", "setbad", "settyped", "settyped", "update", "updatebad", "subscribe", "rawget"}).Draw(t, "kind")
+		op.Kind = rapid.SampledFrom([]string{"get", "get", "set", "set", "setbad", "settyped", "settyped", "update", "updatebad", "subscribe", "rawget", "set2", "update2", "subscribe2"}).Draw(t, "kind")
 		switch op.Kind {
-		case "set", "update":
+		case "set", "update", "set2", "update2":
 			op.Value = rapid.Int32Range(0, 1<<30).Draw(t, "v")
 		case "setbad", "updatebad":
 			op.Value = rapid.Int32Range(-1<<30, -1).Draw(t, "neg")
@@ -118,6 +118,11 @@ type client struct {
 	proxy space.BombProxy
 	raw   *netkit.RawClient
 	subs  []*subscriber
+	// a second Bomb object of the same service (same property id): its own
+	// register, its own subscribers, reached through the same session
+	proxy2 space.BombProxy
+	subs2  []*subscriber
+	twin   *probe.Bomb
 }
 
 func dynString(s string) []byte { return ref.EncodeDyn(ref.Dyn{T: ref.Scalar(ref.KString), V: s}) }
@@ -129,6 +134,12 @@ func setup(nclients int) (*netkit.Env, *probe.Bomb, uint32, []*client, func(), e
 	}
 	bomb, actor := probe.NewBomb("bomb", env.Journal)
 	svc, err := env.Server.NewService("Bomb", actor)
+	if err != nil {
+		env.Close()
+		return nil, nil, 0, nil, nil, err
+	}
+	twin, actor2 := probe.NewBomb("bomb2", env.Journal)
+	obj2, err := svc.Add(actor2)
 	if err != nil {
 		env.Close()
 		return nil, nil, 0, nil, nil, err
@@ -153,7 +164,12 @@ func setup(nclients int) (*netkit.Env, *probe.Bomb, uint32, []*client, func(), e
 			return nil, nil, 0, nil, nil, fmt.Errorf("raw client: %v", err)
 		}
 		closers = append(closers, raw.Close)
-		clients = append(clients, &client{proxy: space.MakeBomb(sess, p), raw: raw})
+		p2, err := sess.Proxy("Bomb", obj2)
+		if err != nil {
+			env.Close()
+			return nil, nil, 0, nil, nil, err
+		}
+		clients = append(clients, &client{proxy: space.MakeBomb(sess, p), raw: raw, proxy2: space.MakeBomb(sess, p2), twin: twin})
 	}
 	cleanup := func() {
 		for _, f := range closers {
@@ -196,7 +212,7 @@ func checkCase(c Case) error {
 	// every subscriber has exactly the accepted writes since it subscribed
 	checkEvents := func(step int, why string) error {
 		for ci, cl := range clients {
-			for si, s := range cl.subs {
+			for si, s := range append(append([]*subscriber{}, cl.subs...), cl.subs2...) {
 				// barrier on the subscriber's connection, then wait for the pipeline
 				if _, err := cl.proxy.GetDelay(); err != nil {
 					return vt.Violationf("C14:get-error", "step %d: barrier GetDelay failed: %v", step, err)
@@ -223,6 +239,15 @@ func checkCase(c Case) error {
 		model = v
 		for _, cl := range clients {
 			for _, s := range cl.subs {
+				s.expected = append(s.expected, v)
+			}
+		}
+	}
+	model2 := int32(10)
+	accepted2 := func(v int32) {
+		model2 = v
+		for _, cl := range clients {
+			for _, s := range cl.subs2 {
 				s.expected = append(s.expected, v)
 			}
 		}
@@ -284,6 +309,28 @@ func checkCase(c Case) error {
 			if err := bomb.Helper.UpdateDelay(op.Value); err == nil {
 				return vt.Violationf("C14:invalid-write-accepted", "step %d: service-side UpdateDelay(%d) was accepted although the validator rejects negatives", i, op.Value)
 			}
+		case "set2":
+			if err := cl.proxy2.SetDelay(op.Value); err != nil {
+				return vt.Violationf("C14:valid-write-rejected", "step %d: SetDelay(%d) on the second object failed: %v", i, op.Value, err)
+			}
+			accepted2(op.Value)
+		case "update2":
+			if err := cl.twin.Helper.UpdateDelay(op.Value); err != nil {
+				return vt.Violationf("C14:valid-write-rejected", "step %d: service-side UpdateDelay(%d) on the second object failed: %v", i, op.Value, err)
+			}
+			accepted2(op.Value)
+		case "subscribe2":
+			if len(cl.subs2) >= 2 {
+				continue
+			}
+			_, ch, err := cl.proxy2.SubscribeDelay()
+			if err != nil {
+				return vt.Violationf("C14:subscribe-error", "step %d: SubscribeDelay on the second object failed: %v", i, err)
+			}
+			s := &subscriber{ch: ch}
+			go s.run()
+			cl.subs2 = append(cl.subs2, s)
+			vt.Label("subscriber-on-second-object")
 		case "subscribe":
 			if len(cl.subs) >= 2 {
 				continue
@@ -303,6 +350,9 @@ func checkCase(c Case) error {
 		}
 		if v != model {
 			return vt.Violationf("C14:stale-read", "after step %d (%s): GetDelay returned %d, the last accepted write is %d", i, op.Kind, v, model)
+		}
+		if v2, err := clients[0].proxy2.GetDelay(); err != nil || v2 != model2 {
+			return vt.Violationf("C14:stale-read", "after step %d (%s): GetDelay on the second object returned (%d, %v), its last accepted write is %d", i, op.Kind, v2, err, model2)
 		}
 		if err := checkEvents(i, op.Kind); err != nil {
 			return err
